@@ -8,6 +8,7 @@ import (
 	"time"
 
 	"github.com/osteele/liquid"
+	"github.com/osteele/liquid/render"
 	"verif.local/simrt"
 )
 
@@ -136,6 +137,11 @@ func genC04(r *Rng, tier string) *C04Case {
 			default:
 				op.Kind, op.EP = "direct", 3+r.Intn(3)
 			}
+			if r.Chance(0.06) {
+				// this task sets up an engine of its OWN (new engine, registrations, a
+				// render on it) while the others use the shared, already configured one
+				op = C04Op{Kind: "other-engine", T: op.T, B: op.B}
+			}
 			if (op.EP == EPFRender || op.EP == EPParseAndFRender) && r.Chance(0.5) {
 				op.Fault, op.K, op.Accept = true, r.Intn(10), r.Intn(3)
 			}
@@ -193,7 +199,26 @@ func c04Build(cs *C04Case) (*c04World, Res) {
 	return w, Res{OK: true}
 }
 
+func (w *c04World) otherEngine(op C04Op) Res {
+	return guard(func() Res {
+		e := liquid.NewEngine()
+		e.RegisterFilter("hx", func(s string) string { return "[other:" + s + "]" })
+		e.RegisterFilter("upcase", func(s string) string { return "[other-upcase]" })
+		e.RegisterFilter("only_on_other_engine", func(s string) string { return s })
+		e.RegisterTag("echo", func(render.Context) (string, error) { return "[other-echo]", nil })
+		e.RegisterBlock("otherblock", func(render.Context) (string, error) { return "", nil })
+		out, err := e.ParseAndRenderString(`{{ "a" | hx | upcase }}{% echo 1 %}`, map[string]any{})
+		if err != nil {
+			return errRes(err, "")
+		}
+		return Res{OK: true, Out: out}
+	})
+}
+
 func (w *c04World) exec(op C04Op) Res {
+	if op.Kind == "other-engine" {
+		return w.otherEngine(op)
+	}
 	var fw *FaultWriter
 	var wr interface {
 		Write([]byte) (int, error)
@@ -416,6 +441,8 @@ func c04AloneRun(cs *C04Case) (*c04Alone, Res) {
 		return nil, r
 	}
 	a := &c04Alone{}
+	noScribble = true // baselines do not reuse their parse buffers; the concurrent tasks do
+	defer func() { noScribble = false }()
 	for _, ops := range cs.Tasks {
 		var rs []Res
 		before := simrt.Steps
